@@ -122,6 +122,9 @@ class SyncCrazyflie:
     def close_link(self):
         if (self.is_link_open()):
             self._disconnect_event = Event()
+            # An earlier disconnect may already have removed our callbacks,
+            # make sure the disconnected callback is there to set the event
+            self._add_callbacks()
             self.cf.close_link()
             self._disconnect_event.wait()
             self._disconnect_event = None
